@@ -79,6 +79,13 @@ P("C06",
    U("c06.info", "c06", "TestInfo",
      "metainfo.New / NewInfo on mutated info dictionaries: reject or well-formed; NewPieces/CalculateBlocks terminate; parser allocation <= 64*len+8MiB",
      Q(20000, 4), T(2000000), min_nontrivial_frac=0.4, env={"VERIF_JOURNAL": "1"}),
+   U("c06.session", "c06", "TestSession",
+     "the same mutated info dictionaries handed to a real Session through its four doors - .torrent file, torrent URL body, info dictionary served by a scripted peer for a "
+     "magnet link, info stored in the resume database - with generated MaxPieces (at / just below the torrent's piece count) and MaxTorrentSize / MaxMetadataSize (200 B - 20 KB), "
+     "then started on a storage stub that refuses files above 32 MiB: add/start/close return within the watchdog, the torrent settles in Downloading / Seeding / Stopped, and what "
+     "it reports is well-formed (piece length > 0, >= 1 piece, non-negative file lengths summing to the total, pieces x piece length brackets the total) and within the "
+     "configured limits; an unmodified valid torrent within the limits is accepted through every door",
+     Q(320, 16, 900), T(9600, 16), shrinktime="20s"),
   ])
 
 P("C07",
